@@ -273,6 +273,23 @@ func c12Records(adv int, shuffle int) []refbmc.SuiteRecord {
 		k := shuffle % len(recs)
 		recs = append(recs[k:], recs[:k]...)
 	}
+	if shuffle%7 == 0 {
+		// a long advertisement (well over 256 bytes): vendor suites with algorithms nobody asks
+		// for, ahead of, between and behind the real ones
+		var long []refbmc.SuiteRecord
+		pad := func(k int) {
+			for i := 0; i < k; i++ {
+				long = append(long, refbmc.SuiteRecord{ID: byte(0xa0 + len(long)%64), OEM: true, IANA: 0x0019a4, Auth: byte(0x20 + (len(long)+shuffle)%16), Integs: []byte{byte(0x20 + len(long)%8)}, Confs: []byte{byte(0x28 + len(long)%8)}})
+			}
+		}
+		pad(14 + shuffle%20)
+		for _, rec := range recs {
+			long = append(long, rec)
+			pad(5)
+		}
+		pad(shuffle % 10)
+		recs = long
+	}
 	if shuffle%3 == 0 && len(recs) > 0 {
 		// some suites are advertised more than once: under the standard ID and again under an
 		// OEM ID (as the BMCs the library's own parser test vector comes from do)
@@ -349,7 +366,7 @@ func c12Select(run *ev.Run, s c12Sel) {
 	if used {
 		// the connection has been through a handshake with discovery before (another
 		// preference list); what it learnt then must not influence this one
-		pc, pcancel := e.LimitCtx(40)
+		pc, pcancel := e.LimitCtx(160)
 		ps, _ := e.ST.NewV2Session(pc, &bmc.V2SessionOpts{
 			SessionOpts:  bmc.SessionOpts{Username: cfg.Username, Password: cfg.Password, MaxPrivilegeLevel: ipmi.PrivilegeLevelAdministrator},
 			CipherSuites: []ipmi.CipherSuite{libSuite(c12U[(s.Shuffle/2)%2]), libSuite(c12U[4])},
@@ -362,7 +379,7 @@ func c12Select(run *ev.Run, s c12Sel) {
 		server.Requests = nil
 	}
 	armed = true
-	ctx, cancel := e.LimitCtx(40)
+	ctx, cancel := e.LimitCtx(160)
 	defer cancel()
 	var sess *bmc.V2Session
 	var err error
